@@ -206,13 +206,13 @@ let () = iter_lines (fun line ->
          | Some img ->
              let b = Buffer.create 4096 in Buffer.add_string b (hex_of_bytes img);
              let inp = img @ tail in
-             let fuel = nat_of_int (List.length inp + 8) in
+             let fuel = nat_of_int (List.length inp + 68) in
              Printf.printf "wire w:ok %d %s r:%s\n" (List.length img) (md5 b)
                (show_read (run_fast (wchunk_read fuel gs gb dst) inp)))
     | "read" ->
         let gs = next_z c in let gb = next_z c in let inp = bytes_of_hex (next c) in
         let dst = p_chunk c in
-        let fuel = nat_of_int (List.length inp + 8) in
+        let fuel = nat_of_int (List.length inp + 68) in
         Printf.printf "read %s\n" (show_read (run_fast (wchunk_read fuel gs gb dst) inp))
     | "tosave" ->
         let dst = p_schunk c in let src = p_chunk c in
